@@ -419,6 +419,20 @@ func evalAttemptModeB(src string, opts, optsB []risor.Option, repl map[object.Ob
 		}
 		all = append([]risor.Option{risor.WithOS(vos), risor.WithGlobals(m)}, opts[1:]...)
 	}
+	if mode == "preloaded" {
+		// a VM that the host CONSTRUCTED for the default configuration (vm.New registers its modules) but has not
+		// run yet: the first evaluation on it is under this configuration
+		cfgD := risor.NewConfig(append([]risor.Option{risor.WithOS(vos)}, baseOptions()...)...)
+		prog, perr := parser.Parse(ctx, "1")
+		if perr != nil {
+			return N{"ok": false, "l": "harness: " + perr.Error(), "r": ""}
+		}
+		code, cerr := compiler.Compile(prog, cfgD.CompilerOpts()...)
+		if cerr != nil {
+			return N{"ok": false, "l": "harness: " + cerr.Error(), "r": ""}
+		}
+		all = append(all, risor.WithVM(vm.New(code, cfgD.VMOpts()...)))
+	}
 	if reused {
 		machine, err := vm.NewEmpty()
 		if err != nil {
@@ -633,7 +647,7 @@ func caseWorker(req N) (resp N) {
 			if src == "" {
 				continue
 			}
-			modes := []string{"fresh", "reused", "sharedmap"}
+			modes := []string{"fresh", "reused", "sharedmap", "preloaded"}
 			if len(req["ov"].([]any)) > 0 {
 				modes = append(modes, "keptconfig")
 			}
